@@ -39,7 +39,15 @@ ASSUMPTIONS = [
     "the model's call-history machine assumes the rolled circuit has no non-atomic symbolic parameter (apply_op then raises; modelled separately)",
     "joint state of measured pulses is compared through the conditional Gaussian law of every homodyne outcome under injected outcomes (chain rule), plus the full Gaussian state for measurement-stripped space-unrolled circuits",
 ]
-MANIFEST_TEXT = "see final report"
+MANIFEST_TEXT = (
+    "Proved (Coq, closed under the global context, unbounded): C13_shift_refines_loop (default shift, any bands/sizes/bins/shots: "
+    "unrolled circuit = image of the explicit fresh-mode loop), C13_reuse_separated, C13_shift_int (integer shift s<=n), "
+    "C13_space_unroll (one band, one shot), C13_roll_restores_partial (any call history; active register, circuit, caches, "
+    "init_num_subsystems). Bounded: C13_samples_layout_bounded_partial (<=3 bands of <=4 modes, <=5 bins, <=3 shots). "
+    "Refuted on the faithful model and reproduced on the implementation: dagger/select dropped, expression parameters, "
+    "space_unroll shots>1, register leftovers after roll, lock flag lost, second space_unroll, reshape of space-unrolled samples. "
+    "Model tied to tdm/program.py by exact correspondence on generated programs/histories; physics (same joint law of the "
+    "measured pulses) checked on the gaussian backend with injected homodyne outcomes.")
 
 # --------------------------------------------------------------------------------------------
 # op table: name -> (modes, param kinds, is_measurement, daggerable, selectable)
@@ -220,6 +228,8 @@ def obs_circuit(circuit):
             except Exception:
                 ps.append(str(x))
         sel = getattr(c.op, "select", None)
+        if c.op.__class__.__name__ == "Fouriergate":
+            ps = []
         out.append([c.op.__class__.__name__, ps, [r.ind for r in c.reg], bool(getattr(c.op, "dagger", False)),
                     None if sel is None else float(np.real(sel))])
     return out
@@ -958,21 +968,35 @@ def judge_history(ctx, spec, hist, data, emit=True):
     locked = False
     found = []
     failed_unroll_shots = None
+    rolled_after_space = False
     for k, c in enumerate(hist):
         err = None
+        if c[0] == "roll" and prog.space_unrolled_circuit is not None and prog._num_added_subsystems > 0:
+            rolled_after_space = True
         cache_hit = (c[0] == "unroll" and prog.unrolled_circuit is not None and prog._unrolled_shots == c[1]) or \
                     (c[0] == "space_unroll" and prog.space_unrolled_circuit is not None and prog._unrolled_shots == c[1])
         try:
-            if c[0] == "run" and prog.is_unrolled:
-                continue    # the engine then executes the user's pre-unrolled circuit as is: no agreed expectation
             if c[0] == "run":
                 inj = data.get("inj") or [0.3, -0.5, 0.8, 0.1, -0.9, 0.4, 0.7, -0.2]
+                regs_before = [(i, bool(r.active)) for i, r in sorted(prog.reg_refs.items())]
+                pre = "space-unrolled" if prog.space_unrolled_circuit is not None else ("unrolled" if prog.is_unrolled else "rolled")
                 got = _run_obs(prog, c[1], c[2], inj)
+                regs_after = [(i, bool(r.active)) for i, r in sorted(prog.reg_refs.items())]
+                locked = True if got[0] == "ok" else bool(prog.locked)
+                if regs_after != regs_before:
+                    kind = "grows" if len(regs_after) > len(regs_before) else "deactivated"
+                    found.append(("history:run:user-register-%s" % kind,
+                                  "call %d (%s) on a %s program changed the user's register from %s to %s" % (k, c, pre, regs_before, regs_after)))
+                    break    # the user's program is corrupted from here on; later calls would only show consequences
+                if pre != "rolled":
+                    continue    # the engine executes the user's pre-unrolled circuit as is: no agreed expectation for the results
                 want = _run_obs(build_tdm(spec), c[1], c[2], inj)
                 locked = True
                 if not _run_same(got, want):
                     if got[0] == "err":
                         sig = "history:run:raises:%s%s" % (got[1], ":space" if c[2] else "")
+                        if got[1] == "IndexError" and c[2] and rolled_after_space:
+                            sig = "history:run-space_unroll-after-roll:IndexError"
                         what = "call %d (%s) raised %s although the same run on a fresh program gives %s" % (k, c, got[2], want[0] if want[0] == "ok" else want[2])
                     else:
                         sig = "history:run:differs-from-fresh%s" % (":space" if c[2] else "")
@@ -1125,6 +1149,13 @@ def engine_check(ctx, spec, shots, inj, space=False):
         found.append(("engine:samples-shape%s" % (":space" if space else ""), "samples shape %s, expected %s" % (samples.shape, want.shape)))
         return found
     bad_layout = not np.allclose(samples, want, atol=1e-9)
+    # samples_dict: key = measured position of the band, value[shot, bin]
+    sd = res.samples_dict
+    try:
+        if sorted(sd) != positions or any(not np.allclose(np.array(sd[pos], float), want[:, i, :], atol=1e-9) for i, pos in enumerate(positions)):
+            bad_layout = True
+    except Exception:
+        bad_layout = True
     bad_laws = not rec_close(rec_s, rec_l)
     if bad_layout or bad_laws:
         if space and shots > 1:
@@ -1187,7 +1218,7 @@ def search(ctx):
                 ctx.counterexample(sig, what, data)
         ctx.case({"kind": "corpus", "file": os.path.basename(path)}, nontrivial=False, bucket="corpus")
     # 1. structural predicate at scale: unrolled circuit = image of the explicit loop
-    for _ in range(ctx.budget(300, 3000)):
+    for _ in range(ctx.budget(300, 8000)):
         spec = gen_spec(rng, wellformed=True, allow_flags=rng.random() < 0.25, allow_expr=rng.random() < 0.15,
                         single_band=rng.random() < 0.4)
         space = len(spec["N"]) == 1 and rng.random() < 0.4
@@ -1200,7 +1231,7 @@ def search(ctx):
                  nontrivial=T >= 2 and (shots >= 2 or len(spec["N"]) >= 2 or spec["shift"] != "default"), bucket="search:struct")
         judge_unroll(ctx, spec, space, shots, data)
     # 2. histories
-    for _ in range(ctx.budget(200, 2000)):
+    for _ in range(ctx.budget(200, 4000)):
         spec = gen_spec(rng, allow_expr=False, allow_flags=False, max_T=4, max_N=3, single_band=rng.random() < 0.6, names=HIST_NAMES,
                         physical=True, shift_kinds=("default",))
         hist = gen_history(rng, 6, with_run=True)
@@ -1210,7 +1241,7 @@ def search(ctx):
         ctx.case({"kind": "search-history", "spec": spec, "hist": hist}, nontrivial=T >= 2 and alt, bucket="search:history")
         judge_history(ctx, spec, hist, {"check": "history", "spec": spec, "hist": hist})
     # 3. physics: shifted vs explicit loop (direct execution of the unrolled circuit)
-    for _ in range(ctx.budget(40, 400)):
+    for _ in range(ctx.budget(40, 1200)):
         spec = gen_spec(rng, physical=True, wellformed=True, allow_flags=rng.random() < 0.2, allow_expr=False,
                         max_N=3, max_T=4, max_bands=2)
         shots = rng.choice([1, 1, 2])
@@ -1222,7 +1253,7 @@ def search(ctx):
         for sig, what in physical_check(ctx, spec, shots, inj, data):
             ctx.counterexample(sig, what, data)
     # 4. engine end to end (default shift): sample layout + laws
-    for _ in range(ctx.budget(40, 400)):
+    for _ in range(ctx.budget(40, 1000)):
         spec = gen_spec(rng, physical=True, wellformed=True, allow_flags=rng.random() < 0.15, allow_expr=rng.random() < 0.1,
                         shift_kinds=("default",), max_N=3, max_T=4, max_bands=3,
                         names=PRIMITIVE * 3 + DECOMPOSED)
@@ -1236,7 +1267,7 @@ def search(ctx):
         for sig, what in engine_check(ctx, spec, shots, inj):
             ctx.counterexample(sig, what, data)
     # 5. space unrolling, single band: state of the stripped circuit, and engine run with space_unroll=True
-    for _ in range(ctx.budget(30, 300)):
+    for _ in range(ctx.budget(30, 600)):
         spec = gen_spec(rng, physical=True, wellformed=True, allow_flags=False, allow_expr=False, shift_kinds=("default",),
                         single_band=True, max_N=3, max_T=4)
         T = len(spec["arrays"][0])
